@@ -349,6 +349,26 @@ Definition misses_claim (LP RP : list instr) : Prop :=
     (forall c k vs, dget (heap st c) k = Some vs -> vs <> []) /\
     (quietb st = true -> forall k, lookup_all sro (R st) k = [] -> dget (heap st (cur st)) k = None).
 
+(* ---- requests: pyramid.view._call_view on top of the lookup ----
+   _call_view tries the candidates returned by _find_views in order and returns the answer of the
+   first one that does not raise PredicateMismatch.  What one candidate (a view, or a MultiView object
+   with its current members) answers to the request at hand is an oracle table.  The fact
+   [call_view_reads_only] says that _call_view only iterates over the (cached) candidate list; if the
+   source mutates it, the model declines to predict (None). *)
+Definition answers := list (view * option view).
+Fixpoint answer_of (tbl : answers) (v : view) : option view :=
+  match tbl with
+  | [] => None
+  | (w, a) :: r => if N.eqb v w then a else answer_of r v
+  end.
+Fixpoint first_answer (tbl : answers) (vs : list view) : option view :=
+  match vs with
+  | [] => None
+  | v :: r => match answer_of tbl v with Some a => Some a | None => first_answer tbl r end
+  end.
+Definition request_answer (tbl : answers) (res : option (list view)) : option (option view) :=
+  if call_view_reads_only then option_map (first_answer tbl) res else None.
+
 (* ---- wire glue ---- *)
 Definition get_slot (v : val) : option slot :=
   match v with
@@ -432,13 +452,38 @@ Fixpoint op_keys (fuel : nat) (o : op) : list key :=
       end
   end.
 
-(* case = [sro table; initial registrations; operations]
-   answer = [threads; spawn ids; final cache; expectations; final quiet; final table; trace length] *)
+Definition get_answer_entry (v : val) : option (view * option view) :=
+  match v with
+  | VL [t; a] => olet t := get_N t in olet a := get_opt get_N a in Some (t, a)
+  | _ => None
+  end.
+Definition get_answers (v : val) : option (N * answers) :=
+  match v with
+  | VL [id; tbl] => olet id := get_N id in olet tbl := get_list_of get_answer_entry tbl in Some (id, tbl)
+  | _ => None
+  end.
+Fixpoint assoc_answers (l : list (N * answers)) (id : N) : option answers :=
+  match l with
+  | [] => None
+  | (j, t) :: r => if N.eqb id j then Some t else assoc_answers r id
+  end.
+(* 0 = not a request; -1 = the model declines; [] = nothing answered; [v] = view v answered *)
+Definition put_answer (o : option (option (option view))) : val :=
+  match o with
+  | None => VI 0
+  | Some None => VI (-1)
+  | Some (Some a) => vopt vN a
+  end.
+
+(* case = [sro table; initial registrations; operations; answer tables of the request operations]
+   answer = [threads; spawn ids; final cache; expectations; final quiet; final table; trace length;
+             model answers; expected answers] *)
 Definition run_C15 (v : val) : val :=
   ret_or_bad (
     match v with
-    | VL [tbl; r0; VL ops] =>
+    | VL [tbl; r0; VL ops; ans] =>
         olet tbl := get_list_of get_sro_entry tbl in
+        olet ans := get_list_of get_answers ans in
         olet r0 := get_list_of get_update r0 in
         olet ops := map_opt (get_op 12) ops in
         let sro := assoc_sro tbl in
@@ -453,6 +498,16 @@ Definition run_C15 (v : val) : val :=
                   VL (map (fun i => vopt vviews (ex i)) (range (ntid st)));
                   vbool (quietb st);
                   VL (map (fun k => VL [vkey k; vviews (lookup_all sro (R st) k)]) keys);
-                  vnat (length tr)])
+                  vnat (length tr);
+                  VL (map (fun i => put_answer
+                             (match assoc_answers ans (nth i (rev rids) 0%N), threads st i with
+                              | Some tb, Some t => Some (request_answer tb (tres t))
+                              | _, _ => None
+                              end)) (range (ntid st)));
+                  VL (map (fun i => put_answer
+                             (match assoc_answers ans (nth i (rev rids) 0%N), ex i with
+                              | Some tb, Some vs => Some (request_answer tb (Some vs))
+                              | _, _ => None
+                              end)) (range (ntid st)))])
     | _ => None
     end).
